@@ -131,10 +131,11 @@ where
                 }
                 self.state = PesState::Started;
             }
-            if let Some(payload) = packet.payload() {
-                if let Some(header) = PesHeader::from_bytes(payload) {
-                    self.stream_consumer.begin_packet(ctx, header);
-                }
+            match packet.payload().and_then(PesHeader::from_bytes) {
+                Some(header) => self.stream_consumer.begin_packet(ctx, header),
+                // no PES header could be recognised, so no packet was opened for the consumer:
+                // skip the data of this PES packet rather than deliver it without begin_packet()
+                None => self.state = PesState::IgnoreRest,
             }
         } else {
             match self.state {
